@@ -6,6 +6,9 @@ CONSTANTS
   AutoOpts <- AutoNone
   RVs = {"none", "haltremove"}
   UnsubModes = {"eid"}
+  BulkModes = {}
+  BulkLens = {}
+  WithClear = FALSE
   Forms = {"inst"}
   NoErrs = {FALSE}
   RaiseTypes <- TA
